@@ -343,7 +343,10 @@ class MuxSocketTransportSink(ClientMessageSink):
       The ClientChannelSinkStack associated with the tag's response.
     """
     tup = self._tag_map.pop(tag, None)
-    self._tag_pool.release(tag)
+    if tup is not None:
+      # Only tags that are actually outstanding go back to the pool; the server
+      # may name tags it was never sent (or the reserved ones).
+      self._tag_pool.release(tag)
     return tup
 
   @abstractmethod
